@@ -250,3 +250,60 @@ Print Assumptions C04_scan_top_translated.
 Print Assumptions C04_scan_bare_translated.
 Print Assumptions C04_scan_digit_translated.
 Print Assumptions C04_literal_translated.
+
+(* ==================================================================================================================
+   The DECODER (nbt/snbt_decode.go: writeValue, writeCompoundPayload, writeListOrArray, writeArray, the quoted clause of
+   parseLiteral), TRANSLATED: Gen/Decoder.v is regenerated from the Go source on every run by tools/gotrans/c04w.go as
+   terms of the statement / expression syntax of Model/C04_dsyntax.v; Model/C04_dec.v interprets them over the
+   translated scanner and the translated literal classifier (decode_text = StringifiedMessage.MarshalNBT).
+   REACHED: the obligations below on the translated program, agreement with the specification parser on EVERY text up
+   to a stated length, instances on printed trees, and the differential run of the extracted interpretation against
+   the implementation.  NOT REACHED: the equality with the specification parser on L for texts of every length
+   (meta/C04.json not_proved). *)
+From GoMC Require Model.C04_dsyntax Model.C04_dec Gen.Decoder Proofs.C04_dec Proofs.C04_dec_sweep.
+
+(* the translated program mentions no package-level variable and calls only translated functions and the primitives
+   the interpreter defines: its meaning is a function of the text (and the float oracle) alone *)
+Theorem C04_decoder_closed : C04_dec.closed_prog Decoder.decoder_prog = true.
+Proof. exact C04_dec.decoder_closed. Qed.
+
+(* the scratch state is local to a call: one `var buf bytes.Buffer` (the element buffer of writeListOrArray, fresh and
+   empty in every call), one `var sb strings.Builder`, no deferred call other than a function's first statement *)
+Theorem C04_decoder_scratch_local : C04_dec.scratch_local Decoder.decoder_prog = true.
+Proof. exact C04_dec.decoder_scratch_local. Qed.
+
+(* on EVERY text of at most 6 symbols over braces, brackets, colon, comma, semicolon, both quotes, backslash, 1, a, B and
+   space (alpha1), and of at most 5 symbols over brackets, comma, semicolon, minus, 1, 2, b, s, L, B, I and space (alpha2): whenever the specification parser reads the text as the tree t, the interpretation of the translated decoder
+   writes exactly enc t *)
+Theorem C04_decoder_translated_short : forall (text : list Z) (t : tag),
+  ((length text <= 6)%nat /\ Forall (fun c => In c C04_dec_sweep.alpha1) text) \/
+  ((length text <= 5)%nat /\ Forall (fun c => In c C04_dec_sweep.alpha2) text) ->
+  parse C04_dec_sweep.nopfs C04_dec_sweep.nopfs (map Z.to_N text) = Some t ->
+  C04_dec.decode_text C04_dec_sweep.nopf Decoder.decoder_prog text = C04_dec.DOk (map Z.of_N (enc t)).
+Proof. exact C04_dec_sweep.decoder_agrees_short. Qed.
+
+(* instances of the round trip through the TRANSLATED decoder: the writer's text of a tree with every kind of leaf,
+   nested containers, hostile strings and keys is decoded to exactly the tree's encoding *)
+Definition toy_zpf (txt : list Z) (_ : Z) : option Z := C04_dec.digits_val 0 txt.
+Definition sample_tree : tag :=
+  (TCompound (CCons [] (TString [34;39;92]) (CCons [107;32;121] (TList (LCons (TByte (-1)%Z) (LCons (TByte 127%Z) LNil)))
+   (CCons [97] (TList (LCons (TList LNil) (LCons (TList (LCons (TLong 5%Z) LNil)) LNil)))
+   (CCons [98] (TByteArray [1%Z; (-2)%Z]) (CCons [99] (TIntArray []) (CCons [100] (TLongArray [9%Z])
+   (CCons [101] (TList (LCons (TCompound CNil) (LCons (TCompound (CCons [49] (TShort 7%Z) CNil)) LNil)))
+   (CCons [102] (TFloat 12) (CCons [103] (TDouble 34) (CCons [104] (TInt (-2147483648)%Z) CNil)))))))))))%N.
+Example C04_decoder_ex_roundtrip :
+  wf sample_tree = true /\
+  C04_dec.decode_text toy_zpf Decoder.decoder_prog (map Z.of_N (to_text toy_fm toy_fm sample_tree))
+  = C04_dec.DOk (map Z.of_N (enc sample_tree)).
+Proof. split; vm_compute; reflexivity. Qed.
+(* a list of an Int and a quoted string is refused (element types differ), an unclosed list is refused (end of input),
+   an empty compound followed by x is refused (trailing text) *)
+Example C04_decoder_ex_refused :
+  C04_dec.decode_text toy_zpf Decoder.decoder_prog [91;49;44;34;93;34;93] = C04_dec.DErr /\
+  C04_dec.decode_text toy_zpf Decoder.decoder_prog [91;49] = C04_dec.DErr /\
+  C04_dec.decode_text toy_zpf Decoder.decoder_prog [123;125;120] = C04_dec.DErr.
+Proof. repeat split; vm_compute; reflexivity. Qed.
+
+Print Assumptions C04_decoder_closed.
+Print Assumptions C04_decoder_scratch_local.
+Print Assumptions C04_decoder_translated_short.
